@@ -224,6 +224,10 @@ func main() {
 		genCmd(os.Args[2:])
 	case "run":
 		runCmd(os.Args[2:])
+	case "race":
+		raceCmd(os.Args[2:])
+	case "raceflat":
+		raceFlatCmd(os.Args[2:])
 	default:
 		fmt.Fprintln(os.Stderr, "unknown subcommand")
 		os.Exit(2)
